@@ -199,6 +199,8 @@ def parse_operand(s):
         return ('move', parse_place(s[5:]))
     if s.startswith('const '):
         return ('const', s[6:])
+    if re.match(r'^[\w<]', s) and '::' in s:
+        return ('fnitem', s)
     raise MirError('operand? ' + s)
 
 
